@@ -1,4 +1,5 @@
 import Gaftools.Model.Realign
+import Gaftools.Proofs.RealignLemmas
 /-!
 # C11 — realign output is exactly-once and in input order under every schedule
 # C13 — realign aborts with an error when a worker dies
@@ -17,63 +18,79 @@ def hasDeath (es : List Ev) : Bool := es.any (fun e => match e with | .wDie _ c 
     received exactly once — under EVERY schedule, with or without worker deaths.  So success is never reported for an
     output that is missing (or duplicating) records. -/
 theorem done_complete (batches : List (List Nat)) (es : List Ev) (h : (run (init batches) es).pc = .done) :
-    (run (init batches) es).got.Perm batches.flatten := by
-  sorry
+    (run (init batches) es).got.Perm batches.flatten :=
+  Proofs.Realign.done_complete batches es h
 
 /-- the written order is the input order: the sorted received priorities are the sorted priorities of the group -/
 theorem done_output (batches : List (List Nat)) (es : List Ev) (h : (run (init batches) es).pc = .done) :
-    output (run (init batches) es) = sortNat batches.flatten := by
-  sorry
+    output (run (init batches) es) = sortNat batches.flatten :=
+  Proofs.Realign.sortNat_congr (done_complete batches es h)
 
-theorem sortNat_sorted (l : List Nat) : (sortNat l).Pairwise (· ≤ ·) := by
-  sorry
+theorem sortNat_sorted (l : List Nat) : (sortNat l).Pairwise (· ≤ ·) :=
+  Proofs.Realign.sortNat_sorted l
 
-theorem sortNat_perm (l : List Nat) : (sortNat l).Perm l := by
-  sorry
+theorem sortNat_perm (l : List Nat) : (sortNat l).Perm l :=
+  Proofs.Realign.sortNat_perm l
 
 /-- so for a group holding the contiguous input positions `a, a+1, …, a+n-1` the output is exactly that range, in order -/
 theorem done_output_range (batches : List (List Nat)) (a n : Nat) (hr : batches.flatten = List.range' a n)
     (es : List Ev) (h : (run (init batches) es).pc = .done) :
     output (run (init batches) es) = List.range' a n := by
-  sorry
+  rw [done_output batches es h, hr, Proofs.Realign.sortNat_range']
 
 /-- no timing makes it fail: without an abnormal worker termination the parent never calls `sys.exit(1)` -/
 theorem no_spurious_failure (batches : List (List Nat)) (es : List Ev) (hd : hasDeath es = false) :
-    (run (init batches) es).pc ≠ .failed := by
-  sorry
+    (run (init batches) es).pc ≠ .failed :=
+  Proofs.Realign.no_spurious_failure batches es hd
 
 /-- `failed` is only ever reached when some worker has a non-zero exit code -/
 theorem failed_has_death (batches : List (List Nat)) (es : List Ev) (h : (run (init batches) es).pc = .failed) :
-    ∃ w ∈ (run (init batches) es).ws, ∃ c, w.st = .exited c ∧ c ≠ 0 := by
-  sorry
+    ∃ w ∈ (run (init batches) es).ws, ∃ c, w.st = .exited c ∧ c ≠ 0 :=
+  Proofs.Realign.failed_has_death batches es h
 
 /-- C13, first half: if a worker died with something undelivered (its sentinel at least), success is never reported -/
 theorem death_detected (batches : List (List Nat)) (es : List Ev)
     (hw : ∃ w ∈ (run (init batches) es).ws, (∃ c, w.st = .exited c ∧ c ≠ 0) ∧ undelivered w ≠ []) :
     (run (init batches) es).pc ≠ .done := by
-  sorry
+  obtain ⟨w, hwm, _, hund⟩ := hw
+  intro hd
+  exact hund (Proofs.Realign.done_undelivered batches es hd w hwm)
 
 /-- once lost, always lost: a dead worker's undelivered messages stay undelivered in every continuation -/
 theorem death_persistent (s : St) (i : Nat) (w : Worker) (hi : s.ws[i]? = some w) (c : Int) (hc : w.st = .exited c) (e : Ev) :
-    (step s e).ws[i]? = some w := by
-  sorry
+    (step s e).ws[i]? = some w :=
+  Proofs.Realign.death_persistent s i w hi c hc e
 
-/-- C13 "never hangs" / C11 "terminates": from any reachable state in which no worker is running any more, the parent alone
-    (reads while the pipe is non-empty, then one timeout and one liveness check) reaches `done` or `failed` -/
+/-- the parent acting alone: reads while the pipe is non-empty, then one timeout and one liveness check -/
 def parentDrain (s : St) : List Ev := List.replicate s.chan.length .pGet ++ [.pTimeout, .pCheck]
-
-theorem quiescent_terminates (batches : List (List Nat)) (es : List Ev)
-    (hq : anyRunning (run (init batches) es) = false) :
-    let s' := run (run (init batches) es) (parentDrain (run (init batches) es))
-    s'.pc = .done ∨ s'.pc = .failed := by
-  sorry
 
 /-- … and with a death that lost messages the outcome of that drain is `failed` (non-zero exit status) -/
 theorem quiescent_death_fails (batches : List (List Nat)) (es : List Ev)
     (hq : anyRunning (run (init batches) es) = false)
     (hw : ∃ w ∈ (run (init batches) es).ws, (∃ c, w.st = .exited c ∧ c ≠ 0) ∧ undelivered w ≠ []) :
-    (run (run (init batches) es) (parentDrain (run (init batches) es))).pc = .failed := by
-  sorry
+    (run (run (init batches) es) (parentDrain (run (init batches) es))).pc = .failed :=
+  Proofs.Realign.drain_death_fails (Proofs.Realign.inv_reach batches es) hq hw
+
+/-- why the drain below starts with a (possibly pending) `pCheck` — without it the statement is false: the worker finishes completely between the parent's `Empty` and
+    its liveness check; then `parentDrain` only performs that check and leaves the parent at `atGet` -/
+theorem quiescent_terminates_counterexample :
+    let s := run (init [[]]) [.pTimeout, .wPut 0, .wFlush 0, .wExit 0]
+    anyRunning s = false ∧ (run s (parentDrain s)).pc = .atGet := by decide
+
+/-- variant without the leading `pCheck`, when the parent is not between `Empty` and the liveness check -/
+theorem quiescent_terminates_notAfterEmpty (batches : List (List Nat)) (es : List Ev)
+    (hq : anyRunning (run (init batches) es) = false) (hpc : (run (init batches) es).pc ≠ .afterEmpty) :
+    let s' := run (run (init batches) es) (parentDrain (run (init batches) es))
+    s'.pc = .done ∨ s'.pc = .failed :=
+  Proofs.Realign.drain_terminates (Proofs.Realign.inv_reach batches es) hq hpc
+
+/-- C13 "never hangs" / C11 "terminates": from every reachable state in which no worker is running any more, the parent alone
+    (a possibly pending liveness check, reads while the pipe is non-empty, one timeout, one liveness check) reaches `done` or `failed` -/
+theorem quiescent_terminates (batches : List (List Nat)) (es : List Ev)
+    (hq : anyRunning (run (init batches) es) = false) :
+    let s' := run (run (init batches) es) (.pCheck :: parentDrain (run (init batches) es))
+    s'.pc = .done ∨ s'.pc = .failed :=
+  Proofs.Realign.drain_terminates' (Proofs.Realign.inv_reach batches es) hq
 
 /-- every worker makes only finitely many moves: the number of enabled worker events in any schedule is bounded by
     `3 * messages + workers` (put, flush per message, one exit/death per worker) — workers cannot run forever -/
@@ -81,13 +98,13 @@ def workMeasure (s : St) : Nat :=
   (s.ws.map (fun w => match w.st with | .running => 2 * w.todo.length + w.buf.length + 1 | .exited _ => 0)).sum
 
 theorem worker_step_decreases (s : St) (e : Ev) (he : match e with | .pGet | .pTimeout | .pCheck => False | _ => True)
-    (hne : step s e ≠ s) : workMeasure (step s e) < workMeasure s := by
-  sorry
+    (hne : step s e ≠ s) : workMeasure (step s e) < workMeasure s :=
+  Proofs.Realign.worker_step_decreases s e he hne
 
 /-- batching: groups, concatenated, are the input in order (so per-group order = global order) -/
 theorem groups_flatten (b c : Nat) (hb : 0 < b) (hc : 0 < c) (recs : List Nat) :
-    ((groups b c recs).map List.flatten).flatten = recs := by
-  sorry
+    ((groups b c recs).map List.flatten).flatten = recs :=
+  Proofs.Realign.groups_flatten b c hb hc recs
 
 /-! non-vacuity: the D17 schedule (item received, timeout, the worker finishes completely, liveness check, …) -/
 def exSched : List Ev := [.wPut 0, .wFlush 0, .pGet, .pTimeout, .wPut 0, .wFlush 0, .wPut 0, .wFlush 0, .wExit 0, .pCheck, .pGet, .pGet]
